@@ -26,6 +26,17 @@ CHECKS.update({
  "C16": form_b("Full product slice size x file length x insert/delete x every position x every edit length x second file, plus every pair for content-under-another-name; the recovery files are pruned to exactly the number of slices the edit destroys, so Repair succeeding proves no found slice consumed a block; Verify's usable count must equal the brute-force scan.",
    "Trusted base: ref/scan and edit geometry (cross-checked against each other as an upper bound). High-entropy content only (low-entropy classes are in C01/C03 under the ambiguity rule).", "DESIGN.md 3/C16"),
 })
+CHECKS.update({
+ "C02": form_b("All combinations of <=2 (thorough <=3) operators from a menu of data damage and recovery-file damage (well-formed file with wrong blocks from the reference writer, flipped payload, truncation, emptied, foreign set, deleted), double-check on/off, with unrelated and look-alike files beside the set; PAR1 full product of per-file x per-volume damage; Create on a size grid. The recorder of the owned filesystem is the observation point: every write's path and bytes, the listed result, and a byte-for-byte snapshot diff of everything else.",
+   "Trusted base: envfs recorder; a source lint asserts par1/par2 reach the OS only through defaultFileIO. Real-disk effects (permissions, directories in place of files) are not modelled here.", "DESIGN.md 3/C02"),
+ "C05": form_b("Bounded-exhaustive Create configurations; every written file is parsed by an independent strict PAR2 reader and compared field by field with a reference set built from the specification, including every recovery block recomputed with the reference field arithmetic.",
+   "Trusted base: ref/rpar2 + ref/gf16; spec reading assumptions listed in evidence.", "DESIGN.md 3/C05"),
+ "C06": form_b("Reference-writer layouts on real directories through the exported API: default, every single deviation and all pairs (thorough: all permutations and triples) over packet order, duplication, exponent sets, volume distribution and naming (glob metacharacters, spaces), base names, foreign/unknown packets, volume core-packet variants, sub-directory names and damage; differential against gopar's own canonical set plus reference expectation.",
+   "Trusted base: ref/rpar2 writer, ref/scan, ref/lin. Layouts stay inside the envelope stated in the property's quantifier.", "DESIGN.md 3/C06"),
+ "C13": ("fault_enumeration", "exhaustive fault enumeration (every byte offset / bit / crash prefix of a small set) against soundness oracles",
+   "Every file of a small PAR2 and PAR1 set x every truncation offset x every bit flip x garbage/empty/delete, subsets of deletions, pairs; header-dense enumeration on larger sets; every prefix of Create's recorded write sequence with the last write torn at every byte/boundary. Each resulting directory is handed to the real Verify and Repair; no panic/hang, soundness of whatever is reported usable, and the C02 write oracle.",
+   "Trusted base: envfs, ref readers (incl. a resynchronising packet scanner for 'intact recovery packets'), brute-force scan.", "DESIGN.md 3/C13"),
+})
 NOT_YET = "check not built yet in this round (work in progress; see DESIGN.md section 3 for the planned model-checking harness)"
 
 def main():
